@@ -2,7 +2,7 @@
 # usage: mutate.sh <patch.diff> <property id>...   -- runs the quick checks against a scratch copy of /repo with the patch applied
 set -u
 PATCH=$1; shift
-MT=/tmp/mt
+MT=${MT:-/tmp/mt}
 if [ ! -d $MT/repo ]; then
   mkdir -p $MT; git -C /repo worktree add -q --detach $MT/repo HEAD || exit 2
 fi
